@@ -6,6 +6,7 @@ import (
 	"testing"
 	"unicode/utf8"
 
+	"github.com/hattya/go.sh/interp"
 	"github.com/hattya/go.sh/parser"
 	"pgregory.net/rapid"
 
@@ -22,6 +23,10 @@ type c03Case struct {
 	// of every token and of every quote / expansion inside a word.
 	Marks []int  `json:"marks"`
 	How   string `json:"how"` // how the input was made
+	// Aliases: the program is spread over alias values (the source names the
+	// first alias); the text that comes from an alias has no position of its
+	// own, so the position of the error is not looked at.
+	Aliases map[string]string `json:"aliases,omitempty"`
 }
 
 var redirOpSet = map[string]bool{"<": true, ">": true, ">|": true, ">>": true, "<&": true, ">&": true, "<>": true}
@@ -63,15 +68,22 @@ func posToOffset(src string, line, col int) int {
 
 func checkC03(c c03Case) error {
 	cs := &countingScanner{s: c.Src}
-	cmds, _, err := parser.ParseCommands(nil, "c03-name", cs)
+	var env *interp.ExecEnv
+	if c.Aliases != nil {
+		env = interp.NewExecEnv("sh")
+		for k, v := range c.Aliases {
+			env.Aliases[k] = v
+		}
+	}
+	cmds, _, err := parser.ParseCommands(env, "c03-name", cs)
 	if c.Verdict == "sentence" {
 		if err != nil {
-			return fmt.Errorf("%s: a well-formed command is rejected: %v\nsrc: %q", c.How, err, c.Src)
+			return fmt.Errorf("%s: a well-formed command is rejected: %v\nsrc: %q aliases: %q", c.How, err, c.Src, c.Aliases)
 		}
 		return nil
 	}
 	if err == nil {
-		return fmt.Errorf("%s: an ill-formed program (%s) is accepted with %d command(s)\nsrc: %q", c.How, c.Verdict, len(cmds), c.Src)
+		return fmt.Errorf("%s: an ill-formed program (%s) is accepted with %d command(s)\nsrc: %q aliases: %q", c.How, c.Verdict, len(cmds), c.Src, c.Aliases)
 	}
 	pe, ok := err.(parser.Error)
 	if !ok {
@@ -79,6 +91,10 @@ func checkC03(c c03Case) error {
 	}
 	if pe.Name != "c03-name" {
 		return fmt.Errorf("%s: the error names %q, want the caller's name\nsrc: %q", c.How, pe.Name, c.Src)
+	}
+	if c.Aliases != nil {
+		// text that comes from an alias has no position of its own
+		return nil
 	}
 	off := posToOffset(c.Src, pe.Pos.Line(), pe.Pos.Col())
 	if off < 0 {
@@ -377,4 +393,188 @@ func TestC03(t *testing.T) {
 		featStats(st, p)
 	}
 	runRapid(t, n, prop)
+
+	// (vi) here-documents: one to three pending at one newline, which the
+	// lexer reaches from different states; then one thing is damaged
+	hdProp := func(rt *rapid.T) {
+		type hd struct {
+			op, word, delim string
+			quoted          bool
+			body            []string
+		}
+		nhd := rapid.IntRange(1, 3).Draw(rt, "nhd")
+		var hds []hd
+		for i := 0; i < nhd; i++ {
+			d := string(rune('A'+i)) + rapid.SampledFrom([]string{"", "1", "_e"}).Draw(rt, "dsuffix")
+			h := hd{op: rapid.SampledFrom([]string{"<<", "<<-"}).Draw(rt, "op"), delim: d, word: d}
+			switch rapid.IntRange(0, 5).Draw(rt, "dform") {
+			case 0:
+				h.word, h.quoted = "'"+d+"'", true
+			case 1:
+				h.word, h.quoted = `\`+d, true
+			case 2:
+				h.word, h.quoted = `"`+d+`"`, true
+			}
+			for j := rapid.IntRange(0, 2).Draw(rt, "nlines"); j > 0; j-- {
+				h.body = append(h.body, rapid.SampledFrom([]string{"x", "a b", "$v", "  y", "", "\tz", "${v:-w}", "q" + d, d + "q"}).Draw(rt, "line"))
+			}
+			hds = append(hds, h)
+		}
+		ctx := rapid.SampledFrom([]string{"plain", "and", "or", "pipe", "brace", "case", "subshell", "if", "func", "semi"}).Draw(rt, "ctx")
+		comment := rapid.SampledFrom([]string{"", "", " #x", " # c", " #"}).Draw(rt, "comment")
+		// damage
+		kind := rapid.SampledFrom([]string{"none", "bad_expansion", "delimiter_line_deleted", "delimiter_line_altered", "cut_behind_delimiter"}).Draw(rt, "damage")
+		at := rapid.IntRange(0, nhd-1).Draw(rt, "at")
+		verdict := "sentence"
+		build := func() string {
+			var b strings.Builder
+			ops := ""
+			for _, h := range hds {
+				ops += " " + h.op + h.word
+			}
+			tail := ""
+			switch ctx {
+			case "plain":
+				b.WriteString("cat" + ops + comment + "\n")
+			case "semi":
+				b.WriteString("cat" + ops + "; b" + comment + "\n")
+			case "and":
+				b.WriteString("cat" + ops + " &&" + comment + "\n")
+				tail = "b\n"
+			case "or":
+				b.WriteString("cat" + ops + " ||" + comment + "\n")
+				tail = "b\n"
+			case "pipe":
+				b.WriteString("cat" + ops + " |" + comment + "\n")
+				tail = "b\n"
+			case "brace":
+				b.WriteString("{ cat" + ops + comment + "\n")
+				tail = "}\n"
+			case "subshell":
+				b.WriteString("(cat" + ops + ")" + comment + "\n")
+			case "case":
+				b.WriteString("case x in a) cat" + ops + " ;;" + comment + "\n")
+				tail = "esac\n"
+			case "if":
+				b.WriteString("if cat" + ops + "; then" + comment + "\n")
+				tail = "b; fi\n"
+			case "func":
+				b.WriteString("f()" + comment + "\n{ cat" + ops + "\n")
+				tail = "}\n"
+			}
+			for i, h := range hds {
+				body := append([]string{}, h.body...)
+				if kind == "bad_expansion" && i == at {
+					bad := rapid.SampledFrom([]string{"${", "$(if", "${z", "`a", "$((1", "${x:-", "a ${#x:-y}"}).Draw(rt, "bad")
+					pos := rapid.IntRange(0, len(body)).Draw(rt, "badpos")
+					body = append(body[:pos:pos], append([]string{bad}, body[pos:]...)...)
+					if !h.quoted {
+						verdict = "invalid"
+					}
+				}
+				for _, l := range body {
+					b.WriteString(l + "\n")
+				}
+				dl := h.delim
+				if h.op == "<<-" {
+					dl = strings.Repeat("\t", rapid.IntRange(0, 2).Draw(rt, "tabs")) + dl
+				}
+				if i == at {
+					switch kind {
+					case "delimiter_line_deleted":
+						verdict = "incomplete"
+						continue
+					case "delimiter_line_altered":
+						verdict = "incomplete"
+						alt := rapid.SampledFrom([]string{"x%s", "%sx", " %s", "%s ", "#x%s", "# c%s", "c %s", "\\%s"}).Draw(rt, "alter")
+						if h.op == "<<" && rapid.Bool().Draw(rt, "tab_for_plain") {
+							alt = "\t%s" // only "<<-" strips tabs
+						}
+						dl = fmt.Sprintf(alt, dl)
+					case "cut_behind_delimiter":
+						b.WriteString(dl)
+						if !(i == nhd-1 && tail == "") {
+							verdict = "incomplete"
+						}
+						return b.String()
+					}
+				}
+				b.WriteString(dl + "\n")
+			}
+			b.WriteString(tail)
+			return b.String()
+		}
+		src := build()
+		// (the error is only required to lie inside the text consumed so far)
+		c := c03Case{Src: src, Verdict: verdict, How: "here-documents in context " + ctx + ", damage " + kind}
+		run(rt, c, 3+nhd, 1, true)
+		st.Class("heredoc_arrangement:" + kind)
+		st.Class("heredoc_context:" + ctx)
+		if comment != "" {
+			st.Class("heredoc_line_with_comment")
+		}
+		st.Sample(map[string]any{"src": src, "verdict": verdict, "how": c.How})
+	}
+	runRapid(t, n*3, hdProp)
+	st.Note("here-document arrangements: 1-3 here-documents (<< / <<-, plain / single- / double- / backslash-quoted delimiters) pending at one newline that is reached in ten lexer states (end of a simple command, behind ; && || |, inside { } ( ) case-item if f()), with or without a comment on that line; undamaged (must be accepted), or with an ill-formed expansion in one body (rejected iff that delimiter is unquoted), a delimiter line deleted or altered, or the input cut behind a delimiter line")
+
+	// (vii) the same token strings spread over alias values
+	aliasProp := func(rt *rapid.T) {
+		nt := rapid.IntRange(1, 5).Draw(rt, "ntokens")
+		var toks []string
+		for i := 0; i < nt; i++ {
+			toks = append(toks, rapid.SampledFrom(alpha).Draw(rt, "tok"))
+		}
+		var rs []ref.RTok
+		for _, s := range toks {
+			rs = append(rs, rtokOfText(s))
+		}
+		v := ref.Recognise(rs)
+		// the first k tokens become the value of the alias zq; no newline in it
+		// (inside alias text a newline does not end the command)
+		k := rapid.IntRange(1, nt).Draw(rt, "k")
+		for i := 0; i < k; i++ {
+			if toks[i] == "\n" {
+				k = i
+				break
+			}
+		}
+		if k == 0 {
+			return
+		}
+		join := func(ts []string) string {
+			var b strings.Builder
+			for i, s := range ts {
+				if i > 0 {
+					// no blank is needed between a word and a control operator
+					isOp := func(t string) bool { return rtokOfText(t).Kind != ref.RWord }
+					glue := (ctlOpSet[s] && !isOp(ts[i-1]) || ctlOpSet[ts[i-1]] && !isOp(s) && !strings.HasPrefix(s, "#")) && rapid.Bool().Draw(rt, "glue")
+					if !glue {
+						b.WriteString(" ")
+					}
+				}
+				b.WriteString(s)
+			}
+			return b.String()
+		}
+		al := map[string]string{}
+		inner := rapid.IntRange(0, k).Draw(rt, "inner")
+		if inner > 0 {
+			al["zr"] = join(toks[:inner]) + rapid.SampledFrom([]string{"", " "}).Draw(rt, "innertail")
+			al["zq"] = join(append([]string{"zr"}, toks[inner:k]...))
+		} else {
+			al["zq"] = join(toks[:k])
+		}
+		al["zq"] += rapid.SampledFrom([]string{"", " "}).Draw(rt, "tail")
+		src := join(append([]string{"zq"}, toks[k:]...))
+		c := c03Case{Src: src, Verdict: v.String(), How: "token string " + fmt.Sprintf("%q", toks) + " spread over alias values", Aliases: al}
+		run(rt, c, nt, 1, true)
+		st.Class("alias_spread_token_strings")
+		if inner > 0 {
+			st.Class("alias_spread_nested")
+		}
+		st.Sample(map[string]any{"src": src, "aliases": al, "verdict": v.String()})
+	}
+	runRapid(t, n*3, aliasProp)
+	st.Note("alias-spread token strings: random strings of 1-5 tokens of the same alphabet whose first k tokens are the value of an alias (optionally the first j of them the value of a second alias the first one begins with), with and without blanks next to control operators and at the end of the values; the verdict is that of the plain token string")
 }
